@@ -555,3 +555,91 @@ Print Assumptions C19_range_empty_span_any_number_type.
 Print Assumptions C19_progression_shape_any_number_type.
 Print Assumptions C19_linspace_binary64.
 Print Assumptions C19_range_binary64_shape.
+
+(* ==== UninitVec::set, the CHECKED single-slot write (uninit.rs:32-40; Model/Collect.v `uninit_set`, Proofs/LooseEnds.v).
+   The interpreters `run_uninit_set` / `run_uninit_set_buf` of Run/RunC19.v run this definition. ======================== *)
+From Coq Require Import Permutation.
+From Tevec Require Import Proofs.LooseEnds.
+Local Open Scope nat_scope.
+
+(* (20) for every buffer (whatever was written before), index and value: `idx < len` -> Ok, ONE uset call, at idx, the
+        slot idx replaced and every other slot and the length unchanged; otherwise Err, NO uset call, buffer unchanged.
+        Ok <-> idx < len; the only other status is Err (never a panic); no uset call ever names a slot outside 0..len.
+        The buffer model drops an out-of-range store silently (`set_nth`), so the bound is stated on the CALLS. *)
+Theorem C19_uninit_set_total :
+  forall (A : Type) (buf : list (option A)) (idx : nat) (v : A),
+    let len := length buf in
+    (idx < len ->
+       uninit_set len idx v = (WOk, [(idx, v)])
+       /\ fst (uninit_set_buf buf idx v) = WOk
+       /\ length (snd (uninit_set_buf buf idx v)) = len
+       /\ forall j, nth_error (snd (uninit_set_buf buf idx v)) j
+                    = if j =? idx then Some (Some v) else nth_error buf j)
+    /\ (len <= idx ->
+          uninit_set len idx v = (WErr, []) /\ uninit_set_buf buf idx v = (WErr, buf))
+    /\ (fst (uninit_set len idx v) = WOk <-> idx < len)
+    /\ (fst (uninit_set len idx v) <> WOk -> fst (uninit_set len idx v) = WErr)
+    /\ (forall w, In w (snd (uninit_set len idx v)) -> w = (idx, v) /\ fst w < len).
+Proof. exact (@uninit_set_total). Qed.
+
+(* (21) any sequence of `set` calls on one buffer, in closed form: call k is Ok iff ITS index is in range (no call
+        influences the status of another), and the buffer afterwards is the buffer after exactly the accepted uset calls,
+        in call order; the length never changes *)
+Theorem C19_uninit_set_sequence :
+  forall (A : Type) (buf : list (option A)) (calls : list (nat * A)),
+    uninit_set_seq buf calls
+    = (map (fun c => if fst c <? length buf then WOk else WErr) calls,
+       apply_writes (filter (fun c => fst c <? length buf) calls) buf)
+    /\ length (snd (uninit_set_seq buf calls)) = length buf.
+Proof. intros A buf calls. split; [apply uninit_set_seq_closed|apply uninit_set_seq_length]. Qed.
+
+(* (22) `len` successive sets at 0, 1, ..., len-1 — over ANY previous content of the buffer: every call Ok, the buffer is
+        exposable (`assume_init` defined) and is exactly the written values *)
+Theorem C19_uninit_set_fills_buffer :
+  forall (A : Type) (old : list (option A)) (items : list A),
+    length items = length old ->
+    uninit_set_seq old (combine (seq 0 (length old)) items) = (repeat WOk (length old), map Some items)
+    /\ assume_init (snd (uninit_set_seq old (combine (seq 0 (length old)) items))) = Some items
+    /\ finish (snd (uninit_set_seq old (combine (seq 0 (length old)) items))) = Done items.
+Proof. exact (@uninit_set_fill). Qed.
+
+(* (23) the same in ANY order (each slot named once) on a fresh buffer: all Ok, a complete output, slot j = the value
+        set at j; and a slot that no call names keeps the buffer from being exposable, whatever else was set *)
+Theorem C19_uninit_set_fills_buffer_any_order :
+  forall (A : Type) (calls : list (nat * A)) (n : nat),
+    Permutation (map fst calls) (seq 0 n) ->
+    fst (uninit_set_seq (repeat None n) calls) = repeat WOk n
+    /\ exists l, finish (snd (uninit_set_seq (repeat None n) calls)) = Done l /\ length l = n
+                 /\ forall j v, In (j, v) calls -> nth_error l j = Some v.
+Proof. exact (@uninit_set_fill_any_order). Qed.
+
+Theorem C19_uninit_set_missing_slot_not_exposable :
+  forall (A : Type) (calls : list (nat * A)) (n j : nat),
+    j < n -> ~ In j (map fst calls) ->
+    assume_init (snd (uninit_set_seq (repeat None n) calls)) = None.
+Proof. exact (@uninit_set_missing_slot). Qed.
+
+(* ---- non-vacuity: inside / at the end / past the end; an overwritten buffer; a permuted fill; a missing slot;
+        a call past the end in the middle of a sequence is refused alone ---- *)
+Example C19_uninit_set_examples :
+  uninit_set 3 2 7%Z = (WOk, [(2, 7%Z)])
+  /\ uninit_set 3 3 7%Z = (WErr, [])
+  /\ uninit_set 0 0 7%Z = (WErr, [])
+  /\ uninit_set_buf [Some 1%Z; None; Some 3%Z] 1 9%Z = (WOk, [Some 1%Z; Some 9%Z; Some 3%Z])
+  /\ uninit_set_buf [Some 1%Z; None; Some 3%Z] 3 9%Z = (WErr, [Some 1%Z; None; Some 3%Z])
+  /\ uninit_set_seq [Some 5%Z; None] (combine (seq 0 2) [7%Z; 8%Z]) = ([WOk; WOk], [Some 7%Z; Some 8%Z])
+  /\ Permutation (map fst [(2, 30%Z); (0, 10%Z); (1, 20%Z)]) (seq 0 3)
+  /\ finish (snd (uninit_set_seq (repeat None 3) [(2, 30%Z); (0, 10%Z); (1, 20%Z)])) = Done [10%Z; 20%Z; 30%Z]
+  /\ uninit_set_seq (repeat None 3) [(0, 10%Z); (3, 99%Z); (2, 30%Z)] = ([WOk; WErr; WOk], [Some 10%Z; None; Some 30%Z])
+  /\ ~ In 1 (map fst [(0, 10%Z); (3, 99%Z); (2, 30%Z)]).
+Proof.
+  repeat split; try (vm_compute; reflexivity).
+  - cbn. apply (Permutation_cons_app [0; 1] [] 2). reflexivity.
+  - cbn. intros [H|[H|[H|[]]]]; discriminate.
+Qed.
+
+Print Assumptions C19_uninit_set_total.
+Print Assumptions C19_uninit_set_sequence.
+Print Assumptions C19_uninit_set_fills_buffer.
+Print Assumptions C19_uninit_set_fills_buffer_any_order.
+Print Assumptions C19_uninit_set_missing_slot_not_exposable.
